@@ -112,6 +112,10 @@ func NewConsumerGroup(parent, fanOutPath string, q FanOutQueue) (ConsumerGroup, 
 		if ackSeq < ackOfQueue {
 			ackSeq = ackOfQueue
 		}
+		// messages up to the ack are gone, never start consuming below it(keep ack <= consumed)
+		if consumedSeq < ackSeq {
+			consumedSeq = ackSeq
+		}
 	}
 	// persist metadata
 	metaPage.PutUint64(uint64(consumedSeq), consumerGroupConsumedSeqOffset)
